@@ -93,6 +93,8 @@ pub(crate) mod concurrent_read_map;
 pub(crate) mod mapped_addrs;
 pub(crate) mod remote_map;
 pub(crate) mod transports;
+#[cfg(iroh_verif)]
+pub(crate) mod verif_c25;
 
 use self::mapped_addrs::{EndpointIdMappedAddr, MappedAddr};
 pub use self::metrics::Metrics;
@@ -713,6 +715,9 @@ struct DirectAddrUpdateState {
     relay_map: RelayMap,
     run_done: mpsc::Sender<()>,
     shutdown_token: CancellationToken,
+    /// Verification harness only (property C25): runs are handed to this instead of being spawned.
+    #[cfg(iroh_verif)]
+    verif_sim: Option<Arc<std::sync::Mutex<verif_c25::Sim>>>,
 }
 
 #[derive(Default, Debug, PartialEq, Eq, Clone, Copy)]
@@ -750,6 +755,8 @@ impl DirectAddrUpdateState {
             relay_map,
             run_done,
             shutdown_token,
+            #[cfg(iroh_verif)]
+            verif_sim: None,
         }
     }
 
@@ -811,6 +818,13 @@ impl DirectAddrUpdateState {
         if self.relay_map.is_empty() {
             debug!("skipping net_report, empty RelayMap");
             self.sock.net_report.set((None, why)).ok();
+            return;
+        }
+
+        // Verification harness only (property C25): the harness plays the run task.
+        #[cfg(iroh_verif)]
+        if let Some(sim) = self.verif_sim.as_ref() {
+            sim.lock().expect("poisoned").start(why, net_reporter);
             return;
         }
 
